@@ -186,11 +186,13 @@ func runCodec() *ShardResult {
 		// decoding another log into the same struct must not write into the slices of the first result
 		kept := got
 		other := &raft.Log{Index: l.Index + 1, Term: 9, Type: 3, AppendedAt: l.AppendedAt}
-		if l.Data != nil {
-			other.Data = bytes.Repeat([]byte{0x5a}, len(l.Data))
+		// opposite shapes: where the first log had bytes the second has none and vice versa, so that a
+		// field which Decode leaves alone when the encoding is empty would keep the first log's bytes
+		if len(l.Data) == 0 {
+			other.Data = []byte{0x5a, 0x5a, 0x5a}
 		}
-		if l.Extensions != nil {
-			other.Extensions = bytes.Repeat([]byte{0xa5}, len(l.Extensions))
+		if len(l.Extensions) == 0 {
+			other.Extensions = []byte{0xa5, 0xa5}
 		}
 		var buf2 bytes.Buffer
 		if err := codec.Encode(other, &buf2); err == nil {
@@ -484,6 +486,9 @@ func runSizes() *ShardResult {
 			}
 		}
 	}
+	if *fShard == 2%*fNShards {
+		compositeCases(res, add)
+	}
 	if *fShard == 0 {
 		big := []int{64<<20 - 64, 64<<20 - 23, 64<<20 - 22, 64<<20 - 1, 64 << 20, 64<<20 + 1}
 		for _, sz := range big {
@@ -498,6 +503,98 @@ func runSizes() *ShardResult {
 	}
 	res.Samples = append(res.Samples, map[string]interface{}{"segment": 4096, "payload": 65536 - 23, "position": "middle"}, map[string]interface{}{"segment": 1 << 20, "payload": 64 << 20, "position": "alone"})
 	return res
+}
+
+// compositeCases: a batch whose earlier entries together exceed the writer's 64 KiB buffer and whose last
+// entry is beyond the maximum size must be refused without side effects: what is appended afterwards is
+// acknowledged, readable, and still there after a reopen.
+func compositeCases(res *ShardResult, add func(string, string, map[string]interface{})) {
+	mk := func(idx uint64, n int) *raft.Log {
+		l := core.MkLog(idx, 5, 8)
+		b := make([]byte, n)
+		for i := 0; i < n; i += 251 {
+			b[i] = byte(i>>2) + 3
+		}
+		l.Data = b
+		return l
+	}
+	for _, pre := range []int{0, 1} {
+		for _, shape := range [][]int{{40000, 40000}, {30000, 30000, 30000}, {65000, 100}} {
+			func() {
+				desc := map[string]interface{}{"committed_batches_before": pre, "entries_before_the_oversized_one": shape}
+				res.Counts["evaluations"]++
+				res.Counts["composite_refusal_cases"]++
+				res.Counts["traces_validated"]++
+				defer func() {
+					if r := recover(); r != nil {
+						add("composite-panic", fmt.Sprintf("refused oversized batch %v: panic %v", shape, r), desc)
+					}
+				}()
+				sys := core.Mount(simdisk.NewState(), core.Config{SegSize: 1 << 20})
+				defer sys.Unmount()
+				sys.Disk.NoLog = true
+				if err := sys.Open(); err != nil {
+					return
+				}
+				next := uint64(1)
+				var want []*raft.Log
+				for i := 0; i < pre; i++ {
+					l := mk(next, 8)
+					if err := sys.W.StoreLog(l); err != nil {
+						return
+					}
+					want = append(want, mk(next, 8))
+					next++
+				}
+				var batch []*raft.Log
+				for i, n := range shape {
+					batch = append(batch, mk(next+uint64(i), n))
+				}
+				batch = append(batch, mk(next+uint64(len(shape)), 64<<20))
+				if err := sys.W.StoreLogs(batch); err == nil {
+					add("composite-accepted", fmt.Sprintf("a batch ending in a 64 MiB payload (encoding above the maximum) after %v was accepted", shape), desc)
+					sys.W.Close()
+					return
+				}
+				if l, _ := sys.W.LastIndex(); l != next-1 {
+					add("composite-changed", fmt.Sprintf("refused batch %v + oversized entry left LastIndex at %d, want %d", shape, l, next-1), desc)
+				}
+				for i := 0; i < 2; i++ {
+					l := mk(next, 8+i)
+					if err := sys.W.StoreLog(l); err != nil {
+						add("composite-next", fmt.Sprintf("append after the refused batch %v failed: %v", shape, err), desc)
+						sys.W.Close()
+						return
+					}
+					want = append(want, mk(next, 8+i))
+					next++
+				}
+				check := func(phase string) {
+					f, _ := sys.W.FirstIndex()
+					l, _ := sys.W.LastIndex()
+					if f != 1 || l != next-1 {
+						add("composite-range", fmt.Sprintf("%s: after a refused batch %v + oversized entry and two acknowledged appends the log is [%d,%d], want [1,%d]", phase, shape, f, l, next-1), desc)
+						return
+					}
+					for _, w := range want {
+						var g raft.Log
+						if err := sys.W.GetLog(w.Index, &g); err != nil {
+							add("composite-read", fmt.Sprintf("%s: GetLog(%d) after a refused batch %v: %v", phase, w.Index, shape, err), desc)
+						} else if d := sameLog(w, &g); d != "" {
+							add("composite-altered", fmt.Sprintf("%s: entry %d after a refused batch %v: %s", phase, w.Index, shape, d), desc)
+						}
+					}
+				}
+				check("same process")
+				if err := sys.Apply(core.Op{K: "R"}); err != nil {
+					add("composite-reopen", fmt.Sprintf("reopen after a refused batch %v + oversized entry and two acknowledged appends failed: %v", shape, err), desc)
+					return
+				}
+				check("after reopen")
+				sys.W.Close()
+			}()
+		}
+	}
 }
 
 type discard struct{}
